@@ -266,3 +266,11 @@ PROPS["C10"] = _enc_prop("c10",
     "Trusted: reference builder/decoder (witness check), harness. Inputs in macro/FNC1/ECI configurations are not compared.",
     "search for a smaller legal encoding with re-checked witness (Lean), compared with the encoder's choice")
 NONTRIVIAL["C10"] = _enc_nontrivial
+
+PROPS["C15"].update({
+    "lean": ["DM.Props.C15"], "level": "proof",
+    "explanation": "Theorems: write_eci emits 241 + the ISO/IEC 16022 Table 6 designator for every number up to 999999 (and refuses beyond); every designator is read back as the same number whatever follows (read_write_eci); read_eci never panics and accepts exactly the well-formed designators with Table 6's value (read_eci_eq_spec); for each of ECI 0/3/11/13 the per-byte behaviour of the string decoder, regenerated from the code on every run, equals ISO-8859-1/-9/-11 on printable bytes and CharsetError elsewhere (kernel decide over 256 bytes each); ECI 26/27 pass exactly well-formed UTF-8 / 7-bit sequences. The models of write_eci / read_eci are tied to the code by exhaustive correspondence (all 1- and 2-codeword designators; all 1,000,000 numbers and 9.4M 3-codeword designators in the thorough tier).",
+    "level_text": "Proof: every clause of the property is a kernel-checked theorem (arithmetic by omega for all 1,000,000 numbers, decide over regenerated 256-entry tables); model = code by exhaustive correspondence.",
+    "level_note": "Trusted: Lean kernel, standard axioms, Spec/Eci.lean (Table 6) and Spec/Charsets.lean (Unicode mapping files, typed from memory) as definitions; String.fromUTF8? as the meaning of well-formed UTF-8; the per-byte charset tables are observed through the public decode_str.",
+    "technique": "Lean 4 theorems (omega, decide over regenerated tables) + exhaustive model/implementation correspondence",
+})
